@@ -406,6 +406,15 @@ DISTINCT = [("rec(x, 1)", "rec(x, True)"), ("rec(x, 0)", "rec(x, False)"), ("rec
             ("I(x - (z - 2))", "I(x - z - 2)"), ("I(x / (z * 2))", "I(x / z * 2)"), ("I((x + z) * 2)", "I(x + z * 2)"), ("rec(x,k=3)", "rec(x, k = 3)"), ("rec(x, 1)", "rec(x,  1)")]
 
 
+# the same operator with its operands the other way round, bare and inside a larger argument
+for _op in OPS_FULL:
+    for _a, _b in (("x", "z"), ("x", "2"), ("z", "0.5")):
+        DISTINCT.append((f"I({_a} {_op} {_b})", f"I({_b} {_op} {_a})"))
+        DISTINCT.append((f"rec({_a} {_op} {_b}, k=1)", f"rec({_b} {_op} {_a}, k=1)"))
+        DISTINCT.append((f"I(({_a} {_op} {_b}) * 2)", f"I(({_b} {_op} {_a}) * 2)"))
+        DISTINCT.append((f"rec(x, k=({_a} {_op} {_b}))", f"rec(x, k=({_b} {_op} {_a}))"))
+
+
 def check_call(case, acc):
     df = frame()
     ns = namespace(df)
@@ -447,6 +456,22 @@ def check_distinct(case, acc):
     if not same_text and n != 2:
         sig = "parens-dropped" if "(" in a[2:-1] and a.startswith("I(") else "collapsed"
         problems.append(("distinct-names", sig, f"{a!r} and {b!r} are different calls but were merged into one term"))
+    if not same_text and not problems:  # and in a design: two columns, each with the value of its own call
+        from formulae import design_matrices
+
+        df = frame()
+        ns = namespace(df)
+        acc.calls += 1
+        try:
+            dm = design_matrices(f"y ~ 0 + {a} + {b}", df, extra_namespace={"rec": rec})
+            M = np.asarray(dm.common.design_matrix, dtype=float)
+            pa, pb = py_eval(a, ns), py_eval(b, ns)
+            if M.shape[1] != 2:
+                problems.append(("distinct-names", "collapsed", f"design of {a!r} + {b!r} has {M.shape[1]} column(s)"))
+            elif pa[0] == "value" and pb[0] == "value" and not (same(np.asarray(pa[1], dtype=float), M[:, 0]) and same(np.asarray(pb[1], dtype=float), M[:, 1])):
+                problems.append(("value", "value-other", f"design of {a!r} + {b!r}: a column is not the value of its own call"))
+        except Exception:
+            pass  # what a design accepts is check_e2e's business
     return problems
 
 
@@ -469,6 +494,52 @@ def check_e2e(case, acc):
                     problems.append(("value", "value-other", f"evaluation {step + 1} of '{text}': not the value of the function bound to that name now"))
             except Exception as ex:
                 problems.append(("value", "rejected", f"design_matrices('y ~ 0 + {text}') raised {type(ex).__name__}: {ex}"))
+    # later frames: several designs that spell the same call evaluate one frame object; the frame is then edited in place,
+    # derived frames (assign / copy) are evaluated too - every value is the call on the frame as passed, with the functions
+    # the design was built with
+    kept = []
+
+    def make(k1, k2):  # a caller of its own per design: the captured environment is the caller's live namespace
+        tools = types.SimpleNamespace(shift=lambda v: v * k1, sub=types.SimpleNamespace(fn=lambda v: v + k2))
+        return design_matrices("y ~ 0 + tools.shift(x) + tools.sub.fn(x) + rec(x, z) + I(x * z - 2)", df, extra_namespace={"tools": tools, "rec": rec})
+
+    for k1, k2 in [(2.0, 100.0), (3.0, -1.0)]:
+        try:
+            kept.append((k1, k2, make(k1, k2)))
+        except Exception as ex:
+            problems.append(("value", "rejected", f"design with tools.shift / tools.sub.fn / rec / I raised {type(ex).__name__}: {ex}"))
+    new = frame().iloc[::-1].reset_index(drop=True)
+    new["x"] = new["x"] + 0.5
+
+    def wanted(fr, k1, k2):
+        xs, zs = fr["x"].to_numpy(dtype=float), fr["z"].to_numpy(dtype=float)
+        return np.column_stack([xs * k1, xs + k2, np.asarray(rec(fr["x"], fr["z"]), dtype=float), xs * zs - 2])
+
+    frames_seq = [("a new frame", new)]
+    for step in range(6):
+        what, fr = frames_seq[-1] if step == 0 else (None, None)
+        if step == 1:
+            new["x"] = new["x"] * 2 + 1
+            what, fr = "the same frame object edited in place", new
+        elif step == 2:
+            what, fr = "a frame derived with assign()", new.assign(z=new["z"] + 3)
+        elif step == 3:
+            what, fr = "a copy() with another x", new.copy()
+            fr["x"] = fr["x"] - 0.25
+        elif step == 4:
+            new.loc[0, "z"] = 9.0
+            what, fr = "the same frame object after a cell was set", new
+        elif step == 5:
+            what, fr = "a row subset", new.iloc[[4, 1, 1]]
+        for k1, k2, dmk in kept:
+            acc.calls += 1
+            try:
+                got = np.asarray(dmk.common.evaluate_new_data(fr).design_matrix, dtype=float)
+            except Exception as ex:
+                problems.append(("value", "rejected", f"evaluate_new_data on {what} raised {type(ex).__name__}: {ex}"))
+                continue
+            if got.shape != (len(fr), 4) or not same(wanted(fr, k1, k2), got):
+                problems.append(("value", "value-other", f"evaluate_new_data on {what} (step {step + 1}, design built with k1={k1}): a column is not the value of its call on that frame"))
     for e in ["x + z", "x * z - 2", "x / z + 0.5", "x ** 2", "(x + z) ** 2", "x - (z - 2)", "-x + z", "x > z", "x * (z + 2) / (x + 1)", "2 ** x", "x <= 2"]:
         py = py_eval(e, ns)[1]
         for call in (f"I({e})", "{" + e + "}"):
